@@ -81,9 +81,10 @@ Step ==
             /\ ords' = Append(ords, [m |-> e.m, id |-> e.id, a |-> e.a, buy |-> e.buy, mo |-> e.mo, px |-> e.px, ttl |-> e.ttl, t |-> e.t])
             /\ v' = v0 /\ sync' = "" /\ UNCHANGED <<nd, cnt>>
        [] e.k = "canc" ->
-            /\ truth' = Append(truth, [ref |-> <<"c", e.m, e.id, e.t>>,
+            \* (e.tm: the market clock when the cancel was handled - not what the Cancel object or the record say)
+            /\ truth' = Append(truth, [ref |-> <<"c", e.m, e.id, e.tm>>,
                                        f |-> IF KnownOrd(e.m, e.id)
-                                             THEN LET o == OrdOf(e.m, e.id) IN <<e.t, o.a, o.buy, o.mo, o.px, e.ovol, o.ttl, o.t>>
+                                             THEN LET o == OrdOf(e.m, e.id) IN <<e.tm, o.a, o.buy, o.mo, o.px, e.ovol, o.ttl, o.t>>
                                              ELSE <<>>, grp |-> 0])
             /\ v' = v0 /\ sync' = "" /\ UNCHANGED <<nd, ords, cnt>>
        [] e.k = "round" ->
